@@ -23,7 +23,8 @@
    err = pandas raises (idxmin / idxmax of a group without a valid value).
 
    Nothing here mentions partitions, split_out, split_every or the shuffle
-   method: the property says precisely that the result depends on none.     *)
+   method: the property says precisely that the result depends on none - nor
+   on what the optimizer knows about an earlier hash partitioning (`pre`).   *)
 EXTENDS FrameReductions, GroupFold
 
 RERR == <<0, -1>>                    \* cell-level "pandas raises"
@@ -58,23 +59,40 @@ XfVal(op, p, m, pos, col) ==
     [] op = "bfill"    -> LET vs == { q \in pos..Len(l) : l[q] # NA } IN IF vs = {} THEN RNaN ELSE RInt(l[Min(vs)])
     [] op = "tsum"     -> IntR(IntFold("sum", l, TRUE, 0))                  \* transform("sum")
 
+(* PRE-PARTITIONED SOURCES.  `pre` says what the frame went through before it is grouped:
+     [how |-> "none"]                       nothing
+     [how |-> "shuffle", on |-> K']         hash-shuffled on columns K' (any relation to the grouping keys K: subset,
+                                            equal, superset, overlapping, disjoint).  The rows are the same, their
+                                            order and partitioning are not: only ORDER-FREE operations are comparable
+                                            with pandas, and for those the result is that of the unshuffled frame.
+     [how |-> "agg", on |-> K']             the frame is the result of a first aggregation by the finer keys K' (K a
+                                            prefix of K') with the same function (sum / min / max of partial sums /
+                                            minima / maxima), reset_index(), then grouped by K.  The first stage drops the
+                                            rows with an NA in K' when dropna is in force - otherwise the two stages
+                                            compute what one grouping by K computes.
+   Nothing else of the semantics looks at `pre`: partitioning knowledge must never change a result.                     *)
+OrderFreeFuncs == {"sum", "prod", "count", "min", "max", "mean", "var", "std", "size", "nunique"}
+SourceRows(c) == IF c.pre.how = "agg" /\ c.dropna THEN SelectSeq(c.rows, LAMBDA r : ~HasNAKey(r, c.pre.on)) ELSE c.rows
+
 GFailure == [k |-> "err", gk |-> <<>>, cl |-> <<>>, v |-> <<>>, ordered |-> FALSE, err |-> TRUE]
 
 ColPosIn(c, vcols) == IF \E j \in DOMAIN vcols : vcols[j] = c THEN (CHOOSE j \in DOMAIN vcols : vcols[j] = c) - 1 ELSE 0 - 1
 
 (* A case:
-     fam "agg":  [form, tgt, funcs, keys, dropna, sort, cats, observed, vcols, rows]
+     fam "agg":  [form, tgt, funcs, keys, dropna, sort, cats, observed, vcols, rows, pre]
         form   "method" g.f() | "single" g.agg("f") | "list" g.agg([f, ..]) | "dict" g.agg({col: f | [f, ..]})
         tgt    "frame" (all value columns) | "series" (g[col])
         funcs  the result columns in order: [c |-> value column ("" for size), f |-> function, p |-> parameter]
         sort   0 = not given, 1 = True, 2 = False;   cats = <<>> or the categories of the (single) key
         dropna the semantics in force (pandas' default is TRUE); dexp = whether the keyword was passed at all
                (not looked at here: the default must behave like dropna = TRUE)
-     fam "xf":   [op, p, tgt, cols, keys, dropna, cats, observed, vcols, rows]     cols = the columns transformed *)
+     fam "xf":   [op, p, tgt, cols, keys, dropna, cats, observed, vcols, rows, pre]     cols = the columns transformed
+     pre         see PRE-PARTITIONED SOURCES above *)
 AggTable(c) ==
-  LET gks == SortedKeys(GroupKeys(c.rows, c.keys, c.dropna, SeqSet(c.cats), c.observed))
+  LET src == SourceRows(c)
+      gks == SortedKeys(GroupKeys(src, c.keys, c.dropna, SeqSet(c.cats), c.observed))
       v   == [i \in DOMAIN gks |->
-                LET m == Members(c.rows, c.keys, gks[i])
+                LET m == Members(src, c.keys, gks[i])
                 IN [j \in DOMAIN c.funcs |-> AggVal(c.funcs[j].f, c.funcs[j].p, m, c.funcs[j].c)]]
   IN IF \E i \in DOMAIN v : \E j \in DOMAIN c.funcs : v[i][j] = RERR THEN GFailure
      ELSE [k |-> "groups", gk |-> gks,
